@@ -308,7 +308,7 @@ theorem z_deliver (cfg : Cfg) (hs : cfg.skipStale = false) (hd : cfg.delEarly = 
   simp only [ht] at hrest
   obtain ⟨hrn, hnl, hlong, dcur, dn, hsubs, hgnot, hdn⟩ := hrest
   simp only [TaskOk, ht] at htask
-  obtain ⟨hcurmem, hfbr, hglt⟩ := htask
+  obtain ⟨hcurmem, hfbr, hglt, _⟩ := htask
   have hkeys : keys st.subs = cur :: keys (queue ++ dn) := by rw [hsubs]; rfl
   have hnd : (cur :: keys (queue ++ dn)).Nodup := by rw [← hkeys]; exact hcore.subsNodup
   have hmu : mu H st = (2 * queue.length + (if fb then 1 else 2))
@@ -431,7 +431,7 @@ theorem deliver_halted (cfg : Cfg) (hs : cfg.skipStale = false) (hd : cfg.delEar
   cases ht : X.task with
   | inflight rnow rest cur svc fb replyAt reac tmo granted =>
     simp only [TaskOk, ht] at htask
-    obtain ⟨hcurmem, hfbr, hglt⟩ := htask
+    obtain ⟨hcurmem, hfbr, hglt, _⟩ := htask
     by_cases hacc : reac.accepts = true
     · rw [deliver_accepted cfg X rnow rest cur svc fb replyAt reac tmo granted ht hacc]
       have hglt' : granted.getD cur < X.nextSid := by
